@@ -404,7 +404,9 @@ func C11(c *runner.Cfg) *report.Result {
 		}
 		deep := netx.DeepMessage([]int{20_000, 4_000_000, 4_000_000}[idx], idx == 2)
 		peer.WriteFrame(deep)
-		peer.ReadUntilEOF(3 * time.Second) // the server drops this connection, or ignores the frame; it must survive
+		// the server drops this connection (or ignores the frame); it must survive. The wait is long
+		// enough for ~50 MB to arrive and be parsed on a loaded machine; the server's EOF ends it early
+		peer.ReadUntilEOF(Watchdog / 2)
 		res.Nontrivial(rng.HashString(fmt.Sprint("deep", idx)))
 		res.Count("deep_frames_sent", 1)
 	}, func(idx int, p any, stack string) {
